@@ -271,6 +271,20 @@ fn deep_nesting(ctx: &Ctx, st: &mut Stats) {
     }
 }
 
+/// Short formulas under an ordering that lists many more names than the formula has tokens.
+fn short_formula_long_ordering(st: &mut Stats) {
+    let letters: Vec<String> = (b'a'..=b'z').map(|c| (c as char).to_string()).collect();
+    let ordering: Vec<(String, usize)> = letters.iter().enumerate().map(|(i, n)| (n.clone(), i)).collect();
+    let sparse: Vec<(String, usize)> = letters.iter().enumerate().map(|(i, n)| (n.clone(), 3 * i + 40)).collect();
+    for text in ["z", "y | z", "exists z # z | b", "exists c # (c | b) & z", "forall y, z # y | z | a", "lfp z # z | y", "w & -x", "[z, y] >= 1", "if z then y else x"] {
+        for ord in [&ordering, &sparse] {
+            if check_text(st, text, Some(ord.clone()), "short-formula-long-ordering") {
+                st.bump("short_formulas_under_long_orderings");
+            }
+        }
+    }
+}
+
 fn compare_lists(st: &mut Stats, text: &str, fv: &[String], vs: &[String], want_free: &[String], order: &[String], case: &dyn Fn() -> Value) {
     // sets must be exact; `vars` lists each name once; `free_vars` must be listed in the same
     // (variable) order as `vars`. Which order the tool gives to unlisted variables is not part of
@@ -389,6 +403,7 @@ pub fn run(ctx: &Ctx) -> (Stats, Spec) {
     let mut st = Stats::new();
     positional(&mut st);
     long_binders(ctx, &mut st);
+    short_formula_long_ordering(&mut st);
     // (own thread: deep recursion wants the workers' large stack)
     let deep = util::par_jobs(1, |_| {
         let mut s = Stats::new();
